@@ -119,7 +119,10 @@ def gen_ops(rng, is_service, n, name=None):
                                [("Req", "fix"), T, ("Req", "restart"), T, T, T],
                                [("Req", "restart"), ("Req", "compromise"), T, ("Req", "fix"), T, T, T],
                                [("Req", "fix"), ("Req", "pause"), T, T, ("Req", "resume"), T],
-                               [("Req", "compromise"), ("Req", "fix"), ("NodeOff",), T, ("NodeOn",), T, T]])
+                               [("Req", "compromise"), ("Req", "fix"), ("NodeOff",), T, ("NodeOn",), T, T],
+                               [("Req", "restart"), ("Req", "disable"), T, T, T, T, T],
+                               [("Req", "restart"), T, ("Req", "disable"), ("Req", "enable"), T, T, T, T],
+                               [("Req", "restart"), ("NodeOff",), T, ("NodeOn",), T, T, T, T]])
         else:
             ops += rng.choice([[("Req", "close"), ("Install",), ("Req", "execute" if name in RUN_ON_EXECUTE else "scan"), T, T, T],
                                [("Req", "close"), ("Install",), ("NodeOff",), ("NodeOn",), T, T],
